@@ -490,9 +490,13 @@ def run(chk):
                     f'the server\'s {what} line {lit!r} makes Client.run\'s tests `{ast.unparse(start_if[0].test)}` -> {r1}, `{ast.unparse(end_if[0].test)}` -> {r2}')
     chk.instances('C19.R6', 2)
 
-    # ------------------------------------------------------------------------------------------------------------------
-    # R7 / R8 framing
-    # ------------------------------------------------------------------------------------------------------------------
+    chk.extra.setdefault('domains', {})['hands'] = len(fam)
+    framing(chk)
+
+
+def framing(chk):
+    """R7 / R8: CR LF framing (also evaluated as a dependency of the session properties C08-C11)."""
+    repo = chk.repo
     w_rm, q_rm = loc(repo, 'MessageInterface', 'receive_message', 'C19.R7')
     w_sm, q_sm = loc(repo, 'MessageInterface', 'send_message', 'C19.R7')
     _, rm_fn = repo.method('MessageInterface', 'receive_message', 'C19.R7')
@@ -579,8 +583,8 @@ def run(chk):
                         f'{"never returns (still looping after 20000 interpreter steps: the empty read is not treated as end-of-stream)" if end[0] == "spin" else end}')
     chk.instances('C19.R8', n_e)
     chk.exhaustive = False
-    chk.extra['domains'] = {'hands': len(fam), 'seats': 4, 'calls': 38, 'cards': 52, 'team_names': len(TEAM_NAMES),
-                            'eof_positions': len(data) + 1, 'recv_one_byte': one_byte}
+    chk.extra.setdefault('domains', {}).update({'seats': 4, 'calls': 38, 'cards': 52, 'team_names': len(TEAM_NAMES),
+                                                 'eof_positions': len(data) + 1, 'recv_one_byte': one_byte})
 
 
 def outside_quotes(line: str, fn):
